@@ -265,6 +265,10 @@ def run(facts, tier, ctx):
                             % (e.id, lo, hi)), dict(sample, verdict="FAIL"))
     ra.require_floor(want, "stream encoders")
     out.append(ra)
+    # the frame-size bounds are taken from count_bits() in the single-thread loop (and from the precomputed bytes in the
+    # workers): they are the sizes of the emitted frames only if write == count_bits for every component (C08)
+    from . import c08
+    out += c08.size_rules(facts)
     return out
 
 
